@@ -193,15 +193,26 @@ def _pairs_run(ch):
     return mk(proto, code, reason, w, cl, tuple(h for h in (h1, h2) if h), tuple(c for c in (c1, c2) if c))
 
 
-def family_pairs(tier, p, c):
-    """All executions with <= bound deviations that start with proto p and code c
-    (one shard per (p, c): the first two choice points are the shard key)."""
+def family_pairs(tier, prefix):
+    """All executions with <= bound deviations that start with the given choice prefix
+    (the first choice points are the shard key)."""
     bound = 2 if tier == "quick" else 3
-    dev = (1 if p else 0) + (1 if c else 0)
+    dev = sum(1 for x in prefix if x)
     if dev > bound:
         return
-    for _ch, case in explore(_pairs_run, bound=bound, prefix=[p, c], prefix_dev=dev):
+    for _ch, case in explore(_pairs_run, bound=bound, prefix=list(prefix), prefix_dev=dev):
         yield case
+
+
+def pair_prefixes():
+    out = []
+    for p in range(len(PROTOS)):
+        for c in range(len(CODES)):
+            if p or c:
+                out.append([p, c])
+            else:
+                out.extend([0, 0, r, w] for r in range(len(REASONS)) for w in range(len(WRITES)))
+    return out
 
 
 def all_cases(tier):
@@ -553,7 +564,7 @@ NSHARDS = 24
 
 def shards(tier, seed):
     return [["list", k, NSHARDS] for k in range(NSHARDS)] + \
-           [["pairs", p, c] for p in range(len(PROTOS)) for c in range(len(CODES))]
+           [["pairs", pre, 0] for pre in pair_prefixes()]
 
 
 def run_shard(shard, tier, seed):
@@ -562,7 +573,7 @@ def run_shard(shard, tier, seed):
     if kind == "list":
         cases = all_cases(tier)[a::b]
     else:
-        cases = family_pairs(tier, a, b)
+        cases = family_pairs(tier, a)
     for case in cases:
         st.evaluations += 1
         fails, info = check(case)
